@@ -273,7 +273,13 @@ func c10runJob(j c10job) (out c10out) {
 					pan.Store(fmt.Sprintf("%s panicked: %v", m.name, e))
 				}
 			}()
-			for i := 0; i < j.Iters; i++ {
+			// a full redraw of the styled screen through the reference terminal costs ~100x a
+			// cell update under the race detector: drawing loops run an eighth of the count
+			n := j.Iters
+			if (m.name == "Sync" || m.name == "Show") && n > 100 {
+				n = max(100, n/8)
+			}
+			for i := 0; i < n; i++ {
 				m.f(s, i)
 			}
 		}()
